@@ -9,7 +9,7 @@ index-heavy multiplication code paths of linear_operator; the `…Dense` functio
 the constructor arguments.  Every theorem below is for all sizes (and any number of Kronecker factors / blocks /
 concatenated operators), over an arbitrary commutative semiring.  Part A: Kronecker, block, batch-sum, batch-repeat,
 Mul-over-roots.  Part B: interpolation, Toeplitz circulant embedding, Cat, Masked.  Part C: permutations, sums /
-products / roots / diagonals, the Cholesky orientation defect D01 (counterexample + partial), base-class `to_dense`,
+products / roots / diagonals, the Cholesky orientation (both orientations; D01 of the previous code kept as a named counterexample), base-class `to_dense`,
 `rmatmul` and the minimal user subclass.
 -/
 
@@ -451,49 +451,66 @@ theorem diag_symm {α : Type} [CommSemiring α] {n : Nat} (d : Fin n → α) :
   · subst h; rfl
   · rw [if_neg h, if_neg fun e => h e.symm]
 
-/-! ### 3. defect D01 — `CholLinearOperator(upper=True)` multiplies as `R Rᵀ` but densifies as `Rᵀ R` -/
+/-! ### 3. Cholesky orientation (D01, fixed in /repo 05006ba): `CholLinearOperator(R, upper)` -/
 
-/-- Partial correctness: with `upper = False` the inherited `_matmul` agrees with `to_dense()` for every `R`. -/
+/-- `upper = False`: `_matmul` (`R (Rᵀ rhs)`) agrees with the dense definition `R Rᵀ` for every `R`. -/
 theorem chol_lower_matmul {α : Type} [CommSemiring α] {n c : Nat} (R : Mat α n n) (X : Mat α n c) :
     cholMatmul R false X = Mat.mul (cholDense R false) X :=
   root_matmul R X
 
-/-- Defect D01: with `upper = True` the inherited `_matmul` (`R Rᵀ rhs`) disagrees with `to_dense()` (`Rᵀ R`) —
-witness `R = [[1,1],[0,1]]` (a valid upper Cholesky factor), `rhs = e₀`: the code returns `(2,1)ᵀ`, the dense
-matrix gives `(1,1)ᵀ`. -/
-theorem chol_upper_matmul_counterexample :
-    ∃ (R : Mat Int 2 2) (X : Mat Int 2 1), cholMatmul R true X ≠ Mat.mul (cholDense R true) X := by
+/-- `upper = True`: `_matmul` (`Rᵀ (R rhs)`) agrees with the dense definition `Rᵀ R` for every `R` and every size
+(FULL theorem for the current code; it was a counterexample for the previous code, see below). -/
+theorem chol_upper_matmul {α : Type} [CommSemiring α] {n c : Nat} (R : Mat α n n) (X : Mat α n c) :
+    cholMatmul R true X = Mat.mul (cholDense R true) X := by
+  simp only [cholMatmul, cholDense, if_true]
+  exact (C.mul_assoc (Mat.transpose R) R X).symm
+
+/-- Both orientations at once: `CholLinearOperator._matmul` multiplies by the matrix its arguments denote. -/
+theorem chol_matmul {α : Type} [CommSemiring α] {n c : Nat} (R : Mat α n n) (upper : Bool) (X : Mat α n c) :
+    cholMatmul R upper X = Mat.mul (cholDense R upper) X := by
+  cases upper
+  · exact chol_lower_matmul R X
+  · exact chol_upper_matmul R X
+
+/-- `CholLinearOperator._transpose_nonbatch` returns `self`: `Rᵀ R` and `R Rᵀ` are symmetric. -/
+theorem chol_symm {α : Type} [CommSemiring α] {n : Nat} (R : Mat α n n) (upper : Bool) :
+    Mat.transpose (cholDense R upper) = cholDense R upper := by
+  cases upper
+  · simp only [cholDense, Bool.false_eq_true, if_false]
+    rw [C.transpose_mul, C.transpose_transpose]
+  · simp only [cholDense, if_true]
+    rw [C.transpose_mul, C.transpose_transpose]
+
+/-- About the PREVIOUS code (defect D01, before /repo 05006ba): the inherited `_matmul` (`R Rᵀ rhs`, ignoring
+`upper`) disagreed with the dense definition `Rᵀ R` — witness `R = [[1,1],[0,1]]` (a valid upper Cholesky factor),
+`rhs = e₀`: that code returned `(2,1)ᵀ`, the dense matrix gives `(1,1)ᵀ`. -/
+theorem chol_upper_matmul_previous_counterexample :
+    ∃ (R : Mat Int 2 2) (X : Mat Int 2 1), cholMatmulPrevious R true X ≠ Mat.mul (cholDense R true) X := by
   refine ⟨fun i j => if i.1 = 1 ∧ j.1 = 0 then 0 else 1, fun i _ => if i.1 = 0 then 1 else 0, fun h => ?_⟩
   have h00 := congrFun (congrFun h 0) 0
-  simp only [cholMatmul, rootMatmul, cholDense, if_true, mul_apply, Mat.transpose, Fin.sum_univ_two] at h00
+  simp only [cholMatmulPrevious, rootMatmul, cholDense, if_true, mul_apply, Mat.transpose, Fin.sum_univ_two] at h00
   revert h00
   decide
 
-/-- The defect is invisible exactly on normal factors: if `R Rᵀ = Rᵀ R` then `upper = True` multiplies correctly. -/
-theorem chol_upper_matmul_symmetric_only {α : Type} [CommSemiring α] {n c : Nat} (R : Mat α n n) (X : Mat α n c)
-    (hR : Mat.mul R (Mat.transpose R) = Mat.mul (Mat.transpose R) R) :
-    cholMatmul R true X = Mat.mul (cholDense R true) X := by
-  have h : cholDense R true = Mat.mul R (Mat.transpose R) := by
-    simp only [cholDense, if_true]; exact hR.symm
-  rw [h]
-  exact root_matmul R X
-
-/-- Converse direction of the previous theorem: if `upper = True` multiplies correctly against the identity
-right-hand side, then `R` is normal — so normality is exactly the condition under which D01 is invisible. -/
-theorem chol_upper_matmul_correct_iff_normal {α : Type} [CommSemiring α] {n : Nat} (R : Mat α n n) :
-    (∀ c (X : Mat α n c), cholMatmul R true X = Mat.mul (cholDense R true) X) ↔
+/-- About the PREVIOUS code: it was right exactly on normal factors (`R Rᵀ = Rᵀ R`), which is why the suite never
+noticed. -/
+theorem chol_upper_matmul_previous_correct_iff_normal {α : Type} [CommSemiring α] {n : Nat} (R : Mat α n n) :
+    (∀ c (X : Mat α n c), cholMatmulPrevious R true X = Mat.mul (cholDense R true) X) ↔
       Mat.mul R (Mat.transpose R) = Mat.mul (Mat.transpose R) R := by
   constructor
   · intro h
     have h1 := h n (Mat.one (α := α))
     rw [C.mul_one] at h1
-    have h2 : cholMatmul R true (Mat.one (α := α) (n := n)) = Mat.mul R (Mat.transpose R) := by
+    have h2 : cholMatmulPrevious R true (Mat.one (α := α) (n := n)) = Mat.mul R (Mat.transpose R) := by
       show Mat.mul R (Mat.mul (Mat.transpose R) Mat.one) = _
       rw [C.mul_one]
     rw [h2] at h1
     simpa only [cholDense, if_true] using h1
   · intro hR c X
-    exact chol_upper_matmul_symmetric_only R X hR
+    have h : cholDense R true = Mat.mul R (Mat.transpose R) := by
+      simp only [cholDense, if_true]; exact hR.symm
+    rw [h]
+    exact root_matmul R X
 
 /-! ### 4. base class / minimal user subclass -/
 
